@@ -1,6 +1,131 @@
+(* C03 — the built-in JSON serializer is byte-identical to serde_json's compact output.
+   Only pinned statements; proofs are in Ser/SerdeProofs.v, Ser/Decimal.v and gen/Escape.v.
+
+   zser v n    model of zlink-core/src/json_ser.rs::to_slice on the tree of serde Serializer
+               calls v, writing into a slice of n bytes (Ser/SerdeModel.v)
+   ref_enc v   the reference: serde_json's compact encoding of the same calls, written from the
+               JSON value grammar (Ser/SerdeModel.v), None where serde_json refuses a map key *)
 From ZV Require Import Ser.SerdeModel Ser.SerdeProofs.
 Local Open Scope N_scope.
+
+(* Whenever serialization succeeds — for every tree of serializer calls (every data-model shape,
+   every string content, every integer, every finite or non-finite float, every length hint) and
+   every buffer size — the bytes are exactly the reference encoding. *)
+Theorem C03_equal :
+  forall (v : sval) (n : N) (bs : list byte), zser v n = Ok bs -> ref_enc v = Some bs.
+Proof. exact equal. Qed.
+Print Assumptions C03_equal.
+
+(* The result does not depend on how much space was free: success at one size means the output
+   fits that size, the same bytes are produced at every size that can hold them, and
+   BufferTooSmall is reported at every smaller size (so growing and retrying terminates with the
+   same bytes). *)
+Theorem C03_buffer_independent :
+  forall (v : sval) (n : N) (bs : list byte), zser v n = Ok bs ->
+  N.of_nat (length bs) <= n /\
+  forall m, (N.of_nat (length bs) <= m -> zser v m = Ok bs) /\
+            (m < N.of_nat (length bs) -> zser v m = Err BufferTooSmall).
+Proof. exact buffer_independent. Qed.
+Print Assumptions C03_buffer_independent.
+
+(* No raw control character and no NUL in a successful output, whatever bytes the strings, keys,
+   field and variant names of the value contain; the only assumption is that the text ryu produced
+   for a finite float contains no control byte. *)
+Theorem C03_clean_bytes :
+  forall (v : sval) (n : N) (bs : list byte), floats_clean v -> zser v n = Ok bs ->
+  Forall (fun b => 32 <= b /\ b <> 0) bs.
+Proof.
+  intros v n bs Hf H. eapply Forall_impl; [|exact (clean_bytes v n bs Hf H)].
+  cbv beta. intros b Hb. lia.
+Qed.
+Print Assumptions C03_clean_bytes.
+
+(* A value with an unacceptable map key anywhere (a key that is not a string, char, integer, unit
+   variant or a newtype struct around one of these) is never encoded: the result is
+   KeyMustBeAString as soon as the buffer can hold what precedes the key, BufferTooSmall below. *)
+Theorem C03_bad_keys_refused :
+  forall v : sval, keys_ok v = false ->
+  (forall n bs, zser v n <> Ok bs) /\
+  exists n0, forall n, (n0 <= n -> zser v n = Err KeyMustBeAString) /\
+                       (n < n0 -> zser v n = Err BufferTooSmall).
+Proof. exact bad_keys_refused. Qed.
+Print Assumptions C03_bad_keys_refused.
+
+(* ... and only such values are refused: with acceptable keys the value serializes, to the
+   reference bytes, in every buffer that can hold them. *)
+Theorem C03_good_keys_accepted :
+  forall v : sval, keys_ok v = true ->
+  exists bs, ref_enc v = Some bs /\ forall n, N.of_nat (length bs) <= n -> zser v n = Ok bs.
+Proof. exact good_keys_accepted. Qed.
+Print Assumptions C03_good_keys_accepted.
+
+(* If every string handed to the serializer is UTF-8 and every char a Unicode scalar value (true of
+   every Rust &str / char), a successful output is well-formed UTF-8 (RFC 3629). *)
+Theorem C03_utf8 :
+  forall (v : sval) (n : N) (bs : list byte), text_utf8 v -> zser v n = Ok bs -> utf8 bs.
+Proof. exact output_utf8. Qed.
+Print Assumptions C03_utf8.
+
+(* A successful output is a JSON text (RFC 8259 grammar, Ser/Json.v), provided the length hints
+   the value passes to serialize_seq/map/tuple/struct are truthful where it matters (a hint of
+   zero only on an empty compound) and ryu's float texts are JSON numbers. *)
+Theorem C03_is_json :
+  forall (v : sval) (n : N) (bs : list byte), hints_ok v = true -> floats_ok v ->
+  zser v n = Ok bs -> jvalue bs.
+Proof. exact is_json. Qed.
+Print Assumptions C03_is_json.
+
+(* The `unsafe { unreachable_unchecked() }` arm of the escape match is never reached. *)
+Theorem C03_no_undefined_behaviour :
+  forall (v : sval) (n : N), zser v n <> Err Unreachable.
+Proof. exact never_unreachable. Qed.
+Print Assumptions C03_no_undefined_behaviour.
+
+(* The escape table, as translated from the current source on this run: exactly the control
+   characters, the quotation mark and the reverse solidus are escaped, each in the RFC 8259
+   spelling serde_json uses (two-character escapes, else \u00xx with lower-case hex). *)
+Theorem C03_escape_table_rfc8259 :
+  forall b, b < 256 ->
+  (escape_of b <> 0 <-> (b < 32 \/ b = 34 \/ b = 92)) /\
+  (escape_of b <> 0 -> exists ce, classify (escape_of b) b = Some ce /\
+                                  concat (escape_writes ce) = rfc_escape b).
+Proof. exact C03_escape_table. Qed.
+Print Assumptions C03_escape_table_rfc8259.
+
+(* The decimal formatter standing for itoa is correct: reading the text back gives the integer. *)
+Theorem C03_decimal_correct : forall z : Z, int_val (fmt_int z) = z.
+Proof. exact fmt_int_correct. Qed.
+Print Assumptions C03_decimal_correct.
+
+(* Non-vacuity: a struct with an escaped non-ASCII string, a map with a quoted integer key and a
+   char key, a float, a tuple variant and an empty sequence satisfies every hypothesis used above
+   and serializes as stated, in a buffer of exactly the output size and not in a smaller one. *)
+Definition ex_v : sval :=
+  SStruct [83] 3
+    [([97], SStr [195; 169; 10; 34]);
+     ([109], SMap (Some 2) [(SInt I8 (-3)%Z, SF64 (FFinite [49; 46; 53])); (SChar 8364, SNone)]);
+     ([101], STupleVariant [69] 1 [86] 2 [SBool true; SSeq None []])].
+Definition ex_bytes : list byte :=
+  [123;34;97;34;58;34;195;169;92;110;92;34;34;44;34;109;34;58;123;34;45;51;34;58;49;46;53;44;34;226;
+   130;172;34;58;110;117;108;108;125;44;34;101;34;58;123;34;86;34;58;91;116;114;117;101;44;91;93;93;
+   125;125].
 Example C03_nonvacuous :
-  zser (SStruct [83] 2 [([97], SStr [104;10;34]); ([98], SSeq None [SInt I8 (-3)%Z; SNone])]) 64
-  = Ok [123;34;97;34;58;34;104;92;110;92;34;34;44;34;98;34;58;91;45;51;44;110;117;108;108;93;125].
-Proof. vm_compute. reflexivity. Qed.
+  keys_ok ex_v = true /\ hints_ok ex_v = true /\ floats_ok ex_v /\ floats_clean ex_v /\ text_utf8 ex_v /\
+  zser ex_v 60 = Ok ex_bytes /\ zser ex_v 4096 = Ok ex_bytes /\ zser ex_v 59 = Err BufferTooSmall /\
+  ref_enc ex_v = Some ex_bytes.
+Proof.
+  split; [reflexivity|]. split; [reflexivity|].
+  split; [cbn; tauto|]. split; [cbn; repeat split; repeat constructor; lia|].
+  split.
+  - cbn. repeat split; try (apply utf8_ascii; repeat constructor; lia).
+    + apply u_2; [lia|unfold cont; lia|]. apply utf8_ascii; repeat constructor; lia.
+    + unfold is_scalar. lia.
+  - repeat split; vm_compute; reflexivity.
+Qed.
+
+(* Non-vacuity of the refusal: a bool key after some output was already produced. *)
+Definition ex_bad : sval := SMap None [(SStr [97], SInt U8 1%Z); (SBool true, SUnit)].
+Example C03_bad_key_nonvacuous :
+  keys_ok ex_bad = false /\ zser ex_bad 7 = Err KeyMustBeAString /\
+  zser ex_bad 6 = Err BufferTooSmall /\ ref_enc ex_bad = Some [123;34;97;34;58;49;44;34;116;114;117;101;34;58;110;117;108;108;125].
+Proof. repeat split; vm_compute; reflexivity. Qed.
